@@ -1,3 +1,483 @@
 package main
 
-func checkMain(args []string) int { return 2 }
+// check.go: `gosym check <property> [--tier quick|thorough]` — runs every harness entry of a
+// property, applies vacuity guards, replays counterexamples natively, matches known findings,
+// writes /verif/evidence/<id>.json and prints VIOLATION / KNOWN-FINDING lines.
+
+import (
+	"encoding/json"
+	"flag"
+	"fmt"
+	"os"
+	"os/exec"
+	"path/filepath"
+	"regexp"
+	"sort"
+	"strconv"
+	"strings"
+	"time"
+
+	"gosym/sym"
+)
+
+const (
+	verifDir   = "/verif"
+	harnessDir = "/verif/harness"
+	rootPkg    = "verifharness/props"
+)
+
+type knownFinding struct {
+	Property string `json:"property"`
+	ID       string `json:"id"`     // region id used by verif.KnownRegion in the harness
+	Status   string `json:"status"` // "known" | "fixed"
+	Entry    string `json:"entry,omitempty"`
+	Label    string `json:"label,omitempty"`
+	What     string `json:"what"`
+	Commit   string `json:"commit,omitempty"`
+}
+
+type propMeta struct {
+	Level       string   `json:"level"`
+	Explanation string   `json:"explanation,omitempty"`
+	Assumptions []string `json:"assumptions"`
+	Bounds      map[string]string `json:"bounds"`
+	Replay      string   `json:"replay"` // "native" (default) | "interp"
+}
+
+func loadKnown() []knownFinding {
+	var k []knownFinding
+	data, err := os.ReadFile(filepath.Join(verifDir, "known_findings.json"))
+	if err != nil {
+		return nil
+	}
+	var wrap struct {
+		Findings []knownFinding `json:"findings"`
+	}
+	if json.Unmarshal(data, &wrap) == nil {
+		k = wrap.Findings
+	}
+	return k
+}
+
+func loadMeta(id string) propMeta {
+	m := propMeta{Level: "model_checking", Replay: "native"}
+	data, err := os.ReadFile(filepath.Join(harnessDir, "props", "meta.json"))
+	if err != nil {
+		return m
+	}
+	all := map[string]propMeta{}
+	if json.Unmarshal(data, &all) == nil {
+		if x, ok := all[id]; ok {
+			if x.Level == "" {
+				x.Level = "model_checking"
+			}
+			if x.Replay == "" {
+				x.Replay = "native"
+			}
+			return x
+		}
+	}
+	return m
+}
+
+func checkMain(args []string) int {
+	fs := flag.NewFlagSet("check", flag.ExitOnError)
+	tier := fs.String("tier", "", "quick|thorough")
+	workers := fs.Int("j", 16, "workers")
+	only := fs.String("only", "", "run only entries matching this regexp")
+	noReplay := fs.Bool("noreplay", false, "skip native replay")
+	var id string
+	if len(args) > 0 && !strings.HasPrefix(args[0], "-") {
+		id = args[0]
+		args = args[1:]
+	}
+	fs.Parse(args)
+	if id == "" && fs.NArg() > 0 {
+		id = fs.Arg(0)
+	}
+	if id == "" {
+		fmt.Fprintln(os.Stderr, "usage: gosym check <property-id> [--tier quick|thorough]")
+		return 2
+	}
+	if *tier == "" {
+		*tier = os.Getenv("VERIF_TIER")
+	}
+	if *tier != "thorough" {
+		*tier = "quick"
+	}
+	seed, _ := strconv.Atoi(os.Getenv("VERIF_SEED"))
+	t0 := time.Now()
+	meta := loadMeta(id)
+
+	overlay := loadOverlay()
+	sym.Tier = *tier
+	p, err := sym.Load(sym.LoadConfig{HarnessDir: harnessDir, Patterns: []string{rootPkg}, RootPkg: rootPkg, Overlay: overlay})
+	if err != nil {
+		fmt.Println("INCONCLUSIVE: load failed:", err)
+		writeEvidence(id, *tier, seed, meta, nil, nil, 0, time.Since(t0).Seconds(), []string{"load failed: " + err.Error()}, p)
+		return 2
+	}
+	// known regions active for this property
+	known := loadKnown()
+	activeKnown := map[string]bool{}
+	for _, k := range known {
+		if k.Property == id && k.Status == "known" {
+			activeKnown[k.ID] = true
+		}
+	}
+	sym.ActiveKnown = activeKnown
+
+	var entries []string
+	for name := range p.Root.Members {
+		if strings.HasPrefix(name, id+"_") && p.Root.Func(name) != nil {
+			entries = append(entries, name)
+		}
+	}
+	sort.Strings(entries)
+	if *only != "" {
+		re := regexp.MustCompile(*only)
+		var f []string
+		for _, e := range entries {
+			if re.MatchString(e) {
+				f = append(f, e)
+			}
+		}
+		entries = f
+	}
+	if len(entries) == 0 {
+		fmt.Println("INCONCLUSIVE: no harness entries for", id)
+		return 2
+	}
+	tl := 20000
+	if *tier == "thorough" {
+		tl = 60000
+	}
+	var results []*sym.Result
+	var inconcl []string
+	for _, e := range entries {
+		r := p.Run(e, sym.Options{Workers: *workers, TlimitMs: tl})
+		results = append(results, r)
+		for _, ic := range r.Inconclusive {
+			inconcl = append(inconcl, e+": "+ic)
+		}
+		for _, se := range r.SolverErrors {
+			inconcl = append(inconcl, e+": solver error: "+se)
+		}
+		// vacuity: every statically present Assert / Witness / Reach label must have been reached
+		for _, lbl := range p.StaticLabels(e) {
+			kind, name := lbl[0], lbl[1]
+			switch kind {
+			case "Assert":
+				if st := r.ByLabel[name]; st == nil || st.Reached == 0 {
+					inconcl = append(inconcl, fmt.Sprintf("%s: vacuity: assertion %q never reached", e, name))
+				}
+			case "Witness":
+				if r.Reached["witness:"+name] == 0 {
+					inconcl = append(inconcl, fmt.Sprintf("%s: vacuity: witness %q not satisfiable", e, name))
+				}
+			case "Reach":
+				if r.Reached[name] == 0 {
+					inconcl = append(inconcl, fmt.Sprintf("%s: vacuity: location %q never reached", e, name))
+				}
+			}
+		}
+		fmt.Printf("  %-40s paths=%d aborted=%d asserts=%d(smt %d) violations=%d known-hits=%d queries=%d solver=%.1fs wall=%.1fs\n",
+			e, r.Paths, r.Aborted, r.AssertsTotal, r.AssertsSMT, len(r.Violations), len(r.KnownHits), r.Queries, r.SolverSec, r.WallSec)
+	}
+
+	// violations: dedupe by (entry,label), replay
+	type vkey struct{ e, l string }
+	seen := map[vkey]bool{}
+	var confirmed []sym.Violation
+	replays := 0
+	replayOK := 0
+	os.MkdirAll(filepath.Join(verifDir, "evidence", "replay"), 0o755)
+	for _, r := range results {
+		for _, v := range r.Violations {
+			k := vkey{v.Entry, v.Label}
+			if seen[k] {
+				continue
+			}
+			seen[k] = true
+			path := filepath.Join(verifDir, "evidence", "replay", fmt.Sprintf("%s-%s-%s.json", id, v.Entry, sanitize(v.Label)))
+			writeReplay(path, v)
+			if *noReplay || meta.Replay == "interp" || sym.NoNativeReplay[v.Entry] {
+				// concrete re-execution in the interpreter with inputs pinned to the model
+				ok := p.ReplayConcrete(v)
+				replays++
+				if ok {
+					replayOK++
+					v.Detail += " [replayed in interpreter with pinned inputs]"
+					confirmed = append(confirmed, v)
+					fmt.Printf("VIOLATION property=%s replay=%s\n", id, path)
+					fmt.Printf("  entry=%s assertion=%q model=%v %s\n", v.Entry, v.Label, v.Model, v.Detail)
+				} else {
+					inconcl = append(inconcl, fmt.Sprintf("%s: counterexample for %q did not reproduce under pinned inputs", v.Entry, v.Label))
+				}
+				continue
+			}
+			replays++
+			ok, out := nativeReplay(v, path)
+			if ok {
+				replayOK++
+				confirmed = append(confirmed, v)
+				fmt.Printf("VIOLATION property=%s replay=%s\n", id, path)
+				fmt.Printf("  entry=%s assertion=%q model=%v %s\n", v.Entry, v.Label, v.Model, v.Detail)
+			} else {
+				inconcl = append(inconcl, fmt.Sprintf("%s: counterexample for %q did not reproduce natively: %s", v.Entry, v.Label, out))
+			}
+		}
+	}
+	// witnesses replayed natively (translator validation)
+	if !*noReplay && meta.Replay != "interp" {
+		n := 0
+		for _, r := range results {
+			if sym.NoNativeReplay[r.Entry] {
+				continue
+			}
+			for _, w := range r.Witnesses {
+				if n >= 6 {
+					break
+				}
+				n++
+				path := filepath.Join(verifDir, "evidence", "replay", fmt.Sprintf("%s-%s-witness-%s.json", id, r.Entry, sanitize(w.Label)))
+				writeReplay(path, sym.Violation{Entry: r.Entry, Label: w.Label, Model: w.Model})
+				ok, out := nativeWitness(r.Entry, w.Label, path)
+				replays++
+				if ok {
+					replayOK++
+				} else {
+					inconcl = append(inconcl, fmt.Sprintf("%s: witness %q did not reproduce natively (translator mismatch): %s", r.Entry, w.Label, out))
+				}
+			}
+		}
+	}
+	// known findings
+	hit := map[string]bool{}
+	for _, r := range results {
+		for _, h := range r.KnownHits {
+			hit[h] = true
+		}
+	}
+	for _, k := range known {
+		if k.Property == id && k.Status == "known" && hit[k.ID] {
+			fmt.Printf("KNOWN-FINDING: property=%s %s (%s)\n", id, k.What, k.ID)
+		}
+	}
+	wall := time.Since(t0).Seconds()
+	writeEvidence(id, *tier, seed, meta, results, confirmed, replayOK, wall, inconcl, p)
+	if len(confirmed) > 0 {
+		return 1
+	}
+	if len(inconcl) > 0 {
+		for _, ic := range inconcl {
+			fmt.Println("INCONCLUSIVE:", ic)
+		}
+		return 2
+	}
+	fmt.Printf("OK property=%s tier=%s entries=%d wall=%.1fs\n", id, *tier, len(entries), wall)
+	return 0
+}
+
+func sanitize(s string) string {
+	return regexp.MustCompile(`[^A-Za-z0-9_.-]+`).ReplaceAllString(s, "_")
+}
+
+// loadOverlay reads /verif/harness/overlay/<pkgdir>/<file>.go and maps them into /repo/<pkgdir>/.
+func loadOverlay() map[string][]byte {
+	ov := map[string][]byte{}
+	root := filepath.Join(harnessDir, "overlay")
+	filepath.Walk(root, func(path string, info os.FileInfo, err error) error {
+		if err != nil || info.IsDir() || !strings.HasSuffix(path, ".go") {
+			return nil
+		}
+		rel, _ := filepath.Rel(root, path)
+		data, _ := os.ReadFile(path)
+		ov[filepath.Join("/repo", rel)] = data
+		return nil
+	})
+	return ov
+}
+
+func writeReplay(path string, v sym.Violation) {
+	// model values are raw byte strings: store each byte as a rune 0..255 so JSON stays valid
+	enc := map[string]string{}
+	for k, s := range v.Model {
+		rs := make([]rune, 0, len(s))
+		for i := 0; i < len(s); i++ {
+			rs = append(rs, rune(s[i]))
+		}
+		enc[k] = string(rs)
+	}
+	enc["_entry"] = v.Entry
+	enc["_label"] = v.Label
+	b, _ := json.MarshalIndent(enc, "", " ")
+	os.WriteFile(path, b, 0o644)
+}
+
+func goTestReplay(entry, modelPath string) (string, error) {
+	// overlay: in-package harness files for /repo packages
+	ovDir, _ := os.MkdirTemp("", "gosym-replay")
+	defer os.RemoveAll(ovDir)
+	rep := map[string]string{}
+	i := 0
+	for k, data := range loadOverlay() {
+		f := filepath.Join(ovDir, fmt.Sprintf("ov%d.go", i))
+		i++
+		os.WriteFile(f, data, 0o644)
+		rep[k] = f
+	}
+	ovJSON := filepath.Join(ovDir, "overlay.json")
+	b, _ := json.Marshal(map[string]interface{}{"Replace": rep})
+	os.WriteFile(ovJSON, b, 0o644)
+	cmd := exec.Command("go", "test", "-vet=off", "-count=1", "-v", "-overlay", ovJSON, "-run", "^TestReplay$", "./props/")
+	cmd.Dir = harnessDir
+	cmd.Env = append(os.Environ(), "GOFLAGS=-mod=mod", "GOPROXY=off", "GOSUMDB=off", "GOTOOLCHAIN=local",
+		"VERIF_MODEL="+modelPath, "VERIF_ENTRY="+entry)
+	out, err := cmd.CombinedOutput()
+	return string(out), err
+}
+
+func nativeReplay(v sym.Violation, modelPath string) (bool, string) {
+	out, _ := goTestReplay(v.Entry, modelPath)
+	for _, line := range strings.Split(out, "\n") {
+		if strings.HasPrefix(line, "REPLAY-FAILED-ASSERT: ") {
+			if strings.TrimPrefix(line, "REPLAY-FAILED-ASSERT: ") == v.Label {
+				return true, ""
+			}
+		}
+		if v.Kind == "panic" && strings.HasPrefix(line, "REPLAY-PANIC: ") {
+			return true, ""
+		}
+	}
+	if len(out) > 600 {
+		out = out[len(out)-600:]
+	}
+	return false, strings.ReplaceAll(out, "\n", " | ")
+}
+
+func nativeWitness(entry, label, modelPath string) (bool, string) {
+	out, _ := goTestReplay(entry, modelPath)
+	for _, line := range strings.Split(out, "\n") {
+		if line == "REPLAY-WITNESS: "+label {
+			return true, ""
+		}
+	}
+	if len(out) > 600 {
+		out = out[len(out)-600:]
+	}
+	return false, strings.ReplaceAll(out, "\n", " | ")
+}
+
+func writeEvidence(id, tier string, seed int, meta propMeta, results []*sym.Result, confirmed []sym.Violation, replayOK int, wall float64, inconcl []string, p *sym.Program) {
+	states, trans, evals, nontriv, asserts, assertsSMT := 0, 0, 0, 0, 0, 0
+	var samples []interface{}
+	funcs := map[string]bool{}
+	var notes, skipped []string
+	solver := map[string]interface{}{}
+	q, nsat, nunsat, nunk := 0, 0, 0, 0
+	ssec := 0.0
+	perEntry := []interface{}{}
+	for _, r := range results {
+		states += r.Paths
+		trans += r.Transitions
+		evals += r.Queries
+		nontriv += r.NontrivPaths
+		asserts += r.AssertsTotal
+		assertsSMT += r.AssertsSMT
+		for _, s := range r.Samples {
+			if len(samples) < 10 {
+				samples = append(samples, map[string]interface{}{"entry": r.Entry, "decisions": s.Decisions, "pc_size": s.PCSize, "outcome": s.Outcome, "asserts": s.Asserts, "model": s.Model})
+			}
+		}
+		for f := range r.Funcs {
+			funcs[f] = true
+		}
+		notes = append(notes, r.Notes...)
+		skipped = append(skipped, r.Skipped...)
+		q += r.Queries
+		nsat += r.NSat
+		nunsat += r.NUnsat
+		nunk += r.NUnknown
+		ssec += r.SolverSec
+		labels := map[string]interface{}{}
+		for l, st := range r.ByLabel {
+			labels[l] = map[string]int{"reached": st.Reached, "proved": st.Proved, "failed": st.Failed, "trivially_true": st.Trivial}
+		}
+		perEntry = append(perEntry, map[string]interface{}{"entry": r.Entry, "paths": r.Paths, "infeasible_or_assumed_away": r.Aborted,
+			"decisions": r.Transitions, "assertions": labels, "reached": r.Reached, "queries": r.Queries, "wall_s": r.WallSec, "known_hits": r.KnownHits})
+	}
+	solver["cvc5"] = map[string]interface{}{"queries": q, "sat": nsat, "unsat": nunsat, "unknown": nunk, "seconds": ssec}
+	var fl []string
+	for f := range funcs {
+		fl = append(fl, f)
+	}
+	sort.Strings(fl)
+	hashes := map[string]string{}
+	if p != nil {
+		for f, h := range p.FileHash {
+			if strings.HasPrefix(f, "/repo/") {
+				hashes[f] = h
+			}
+		}
+	}
+	if states == 0 {
+		states = 1
+	}
+	if trans == 0 {
+		trans = 1
+	}
+	if len(samples) == 0 {
+		samples = append(samples, map[string]interface{}{"note": "no path completed"})
+	}
+	cov := map[string]interface{}{
+		"states":                        states,
+		"transitions":                   trans,
+		"traces_validated_against_impl": replayOK,
+		"samples":                       samples,
+		"evaluations":                   evals,
+		"distinct_nontrivial":           nontriv,
+		"rule":                          "evaluations = SMT queries discharged; a case is one explored path (distinct decision string); non-trivial = the path reached at least one assertion that was not constant-folded and needed the solver",
+		"assertion_instances":           asserts,
+		"assertion_instances_smt":       assertsSMT,
+		"functions_encoded":             fl,
+		"source_hashes":                 hashes,
+		"bounds":                        meta.Bounds,
+		"solver":                        solver,
+		"entries":                       perEntry,
+		"notes":                         uniq(notes),
+		"not_explored":                  uniq(skipped),
+		"inconclusive":                  inconcl,
+		"explanation":                   meta.Explanation,
+		"exhaustive":                    false,
+	}
+	ev := map[string]interface{}{
+		"property_id": id,
+		"tier":        tier,
+		"seed":        seed,
+		"level":       meta.Level,
+		"coverage":    cov,
+		"assumptions": meta.Assumptions,
+		"wall_s":      wall,
+		"violations":  len(confirmed),
+	}
+	if meta.Assumptions == nil {
+		ev["assumptions"] = []string{}
+	}
+	b, _ := json.MarshalIndent(ev, "", " ")
+	os.MkdirAll(filepath.Join(verifDir, "evidence"), 0o755)
+	os.WriteFile(filepath.Join(verifDir, "evidence", id+".json"), b, 0o644)
+}
+
+func uniq(l []string) []string {
+	m := map[string]bool{}
+	var out []string
+	for _, x := range l {
+		if !m[x] {
+			m[x] = true
+			out = append(out, x)
+		}
+	}
+	sort.Strings(out)
+	return out
+}
